@@ -61,6 +61,7 @@ func compress(ext string, data []byte) []byte {
 	var out []byte
 	cli := func(name string, args ...string) []byte {
 		cmd := exec.Command(name, args...)
+		cmd.Env = core.OrigEnv
 		cmd.Stdin = bytes.NewReader(data)
 		b, err := cmd.Output()
 		if err != nil {
@@ -618,6 +619,7 @@ func debByTool(r *core.Rand, comp string) ([]byte, map[string]string, string) {
 	os.WriteFile(filepath.Join(root, "usr/share/doc/foo/copyright"), []byte(body), 0o644)
 	out := filepath.Join(dir, "out.deb")
 	cmd := exec.Command("dpkg-deb", "--root-owner-group", "-Z"+comp, "-b", root, out)
+	cmd.Env = core.OrigEnv
 	if cmd.Run() != nil {
 		return nil, nil, ""
 	}
